@@ -25,6 +25,9 @@ pub struct Case {
     /// v5: the peer answers every second QoS 2 publish with a negative PUBREC
     #[serde(default)]
     pub neg: bool,
+    /// the control service stays inside "write back-pressure enabled" notifications until the final phase
+    #[serde(default)]
+    pub hold_bp: bool,
 }
 
 fn fail(c: &Case, rule: &str, detail: String) -> Failure {
@@ -34,6 +37,9 @@ fn fail(c: &Case, rule: &str, detail: String) -> Failure {
 pub async fn run_case(c: Case) -> Result<CaseInfo, Failure> {
     let mut w = World::start_pre(c.role, c.limit, LimitHow::Config, 64, None, &|_| {}, &c.pre).await.map_err(|f| fail(&c, "harness-handshake", f.detail))?;
     w.neg_pubrec = c.neg;
+    if c.hold_bp {
+        w.eut.app().hold_backpressure.set(true);
+    }
     let mut cancelled_parked = false;
     let mut lifted_full = false;
     let mut batch_with_waiters = false;
@@ -98,6 +104,9 @@ pub async fn run_case(c: Case) -> Result<CaseInfo, Failure> {
     }
     // ---- final phase: lift the stall, acknowledge everything, poll the survivors, until nothing changes
     w.apply(Op::Window(true)).await.map_err(|f| fail(&c, &f.rule, f.detail))?;
+    // a control service that was still busy with "back-pressure enabled" notifications returns only now, after the lift
+    w.eut.app().release_backpressure();
+    w.apply(Op::Settle).await.map_err(|f| fail(&c, &f.rule, f.detail))?;
     w.poll_all();
     w.finish_streams().await.map_err(|f| fail(&c, &f.rule, f.detail))?;
     // QoS 2 receipts still held by the application are released so that their exchanges can complete
@@ -265,7 +274,7 @@ fn op_strategy() -> BoxedStrategy<Op> {
 fn case_strategy(role: Role) -> BoxedStrategy<Case> {
     // one history in four (server roles) starts with futures created while the handshake service is still running
     let pre = prop_oneof![3 => Just(Vec::new()), 1 => prop::collection::vec((send_kind(), any::<bool>()), 1..5)];
-    (1u16..4, prop::collection::vec(op_strategy(), 3..26), pre, prop::bool::weighted(0.3)).prop_map(move |(limit, ops, pre, neg)| Case { role, limit, ops, neg: neg && role.is_v5(), pre: if role.is_server() { pre.into_iter().map(|(k, d)| (if matches!(k, SendKind::Subscribe | SendKind::Unsubscribe) { SendKind::Qos1 } else { k }, d)).collect() } else { Vec::new() } }).boxed()
+    (1u16..4, prop::collection::vec(op_strategy(), 3..26), pre, prop::bool::weighted(0.3), prop::bool::weighted(0.25)).prop_map(move |(limit, ops, pre, neg, hold_bp)| Case { role, limit, ops, neg: neg && role.is_v5(), hold_bp, pre: if role.is_server() { pre.into_iter().map(|(k, d)| (if matches!(k, SendKind::Subscribe | SendKind::Unsubscribe) { SendKind::Qos1 } else { k }, d)).collect() } else { Vec::new() } }).boxed()
 }
 
 pub fn check_case(c: &Case) -> Result<CaseInfo, Failure> {
